@@ -619,6 +619,7 @@ def build():
                               "self._dirty.flag", "self.data", "self.machine.thread_stopper.flag"]),
                 1: LoopSpec(invariant=[], modifies=[]),
                 2: LoopSpec(invariant=[], modifies=[])},
+         loops_by_text={"FileManager.is_busy": LoopSpec(invariant=[], modifies=[])},
          ensures=[
              ("D2 shutdown flush: after a clean shutdown the file holds exactly the data last saved "
               "(unless a write failed)",
